@@ -160,6 +160,11 @@ pub struct SessionSpec {
     /// bypassed and the state is re-loaded from disk as a fresh process would
     #[serde(default)]
     pub restart_before: bool,
+    /// run this session as another process of the same client machine would: the client's
+    /// directories are addressed through an alias path (symlink), so the session gets its own
+    /// shard-manager instances while sharing the shard cache directory on disk
+    #[serde(default)]
+    pub peer: bool,
 }
 
 #[derive(Clone, Debug, Serialize, Deserialize, PartialEq)]
@@ -306,8 +311,9 @@ pub fn session_strategy(frag: bool, max_files: usize) -> impl Strategy<Value = S
         proptest::collection::vec(0u8..4, 1..6),
         prop_oneof![4 => Just(0u8), 1 => Just(1u8), 1 => Just(2u8)],
         proptest::bool::weighted(0.3),
+        proptest::bool::weighted(0.25),
     )
-        .prop_map(|(files, concurrent, yields, client, restart_before)| SessionSpec { files, concurrent, yields, client, restart_before })
+        .prop_map(|(files, concurrent, yields, client, restart_before, peer)| SessionSpec { files, concurrent, yields, client, restart_before, peer })
 }
 
 pub fn history_strategy(frag: bool, max_sessions: usize, max_files: usize) -> impl Strategy<Value = History> {
@@ -524,10 +530,24 @@ pub fn threadpool() -> Arc<ThreadPool> {
 }
 
 pub fn make_config(base: &Path, salt: [u8; 32], global_dedup: bool, client: u8, epoch: u32) -> Arc<TranslatorConfig> {
+    make_config_peer(base, salt, global_dedup, client, epoch, false)
+}
+
+pub fn make_config_peer(base: &Path, salt: [u8; 32], global_dedup: bool, client: u8, epoch: u32, peer: bool) -> Arc<TranslatorConfig> {
     let store = base.join("store");
     std::fs::create_dir_all(&store).unwrap();
-    let cpath = base.join(format!("client{client}-e{epoch}"));
-    std::fs::create_dir_all(&cpath).unwrap();
+    let real = base.join(format!("client{client}-e{epoch}"));
+    std::fs::create_dir_all(&real).unwrap();
+    let cpath = if peer {
+        // same directories, other path: process-global caches keyed by path give this session its own instances
+        let alias = base.join(format!("peer{client}-e{epoch}"));
+        if std::fs::symlink_metadata(&alias).is_err() {
+            std::os::unix::fs::symlink(&real, &alias).unwrap();
+        }
+        alias
+    } else {
+        real
+    };
     Arc::new(TranslatorConfig {
         data_config: DataConfig {
             endpoint: Endpoint::FileSystem(store),
@@ -690,7 +710,7 @@ async fn run_history_async(h: History, mut opts: RunOpts, tp: Arc<ThreadPool>) -
                 *epoch += 1;
             }
         }
-        let config = make_config(obs.base.path(), salt, h.global_dedup, s.client, *epoch);
+        let config = make_config_peer(obs.base.path(), salt, h.global_dedup, s.client, *epoch, s.peer);
         obs.config = config.clone();
         let cache_dir = config.shard_config.cache_directory.clone();
         let store_path = match &config.data_config.endpoint {
